@@ -41,6 +41,7 @@ template <int MODULO,
           const WheelInit* INIT>
 class Wheel
 {
+  PRIMESIEVE_VERIF_FRIEND
 public:
   /// Add a new sieving prime to the sieving algorithm.
   /// Calculate the first multiple > segmentLow of prime and
